@@ -265,7 +265,7 @@ manifest = {
     "hooks": {
         "guard": "quickwit_oss_chitchat_verif",
         "enable": "none needed: the checks analyse the compiler's MIR of /repo's working tree and execute nothing",
-        "baseline_off_cmd": "cd /repo && cargo test --workspace --no-fail-fast --offline",
+        "baseline_off_cmd": "cd /repo && . /w/out/rust_env.sh 2>/dev/null; RUSTUP_TOOLCHAIN=${RUSTUP_TOOLCHAIN:-1.88.0} cargo nextest run --workspace --no-fail-fast --tool-config-file pb:/w/lib/nextest.toml --profile pb --test-threads 8 --offline",
         "source_commits": [],
         "add_only": True,
     },
